@@ -563,12 +563,20 @@ def tmpl_big_handover(rng):
     compared: at level 2 they cross the hand-over as text."""
     prog = []
     for _ in range(rng.randint(1, 3)):
-        base, e = rng.choice([(10, rng.randint(9, 32)), (10, rng.choice([10, 11, 20, 21, 30])), (2, rng.choice([32, 40, 64, 96, 128])),
-                              (1000, rng.randint(3, 10)), (6, 20), (7, 25)])
-        prog += [(0, 1, base, None)] * e + [(2, e, 3, None)]
+        base, e = rng.choice([(10, rng.randint(9, 32)), (10, rng.choice([10, 11, 18, 19, 20, 21, 30])), (2, rng.choice([31, 32, 40, 62, 63, 64, 96, 127, 128])),
+                              (2, rng.choice([63, 63, 64])), (2, 63), (10, 19), (1000, rng.randint(3, 10)), (6, 20), (7, 25), (3, rng.choice([39, 40])), (9, 20)])
+        if rng.random() < 0.35:
+            # integers at and around the limits of machine integers (and 19 / 20 decimal digits), built from factors
+            v = rng.choice([2 ** 63, 2 ** 63 + rng.randint(0, 9), rng.randint(2 ** 63, 10 ** 19 - 1), 10 ** 19 - 1, 10 ** 19, 2 ** 64 - 1, 2 ** 64,
+                            2 ** 63 - 1, 2 ** 31, 2 ** 32 - 1, 2 ** 32, 10 ** 18, rng.randint(10 ** 18, 2 ** 63 - 1), 2 ** 127, 2 ** 128 - 1])
+            prog += push_value(v)
+        else:
+            prog += [(0, 1, base, None)] * e + [(2, e, 3, None)]
         r = rng.random()
-        if r < 0.25:
+        if r < 0.15:
             prog += [(0, 1, rng.randint(1, 9), None), (1, 2, 3, None)]
+        elif r < 0.3:
+            prog += [(0, 1, 1, None), (3, 1, 6, None), (1, 2, 3, None)]      # big - 1 (2^63 - 1, 2^64 - 1, 10^19 - 1 ...)
         elif r < 0.45:
             prog += [(4, 1, rng.choice([4, 5]), None)]          # 1/big stays on stack 3, product copy goes elsewhere
         elif r < 0.6:
@@ -717,6 +725,28 @@ def tmpl_label_table(rng):
         o, e, end = m.run()
         if not end.startswith('notadmitted') and m.st['jump_back_over_first_read']:
             break
+    return prog
+
+
+SKIP_STDINS = ['\nabcdef\n', '\n\n\nxy', '  ab\n', 'aaab\nc', '', '\n', 'a\n\n\nb\n', '\r\n\r\nxy\n', ' \n \nq', '한\n\n글\n']
+
+
+def tmpl_skip_loop(rng):
+    """An input-driven loop: characters are skipped while they equal (or are below) a constant - blank lines, leading
+    spaces - by a push command whose NESTED area first pops the constant it pushed and then the next character; after
+    the loop a few characters are printed.  Optionally own values lie on stack 0 first.  (Run with SKIP_STDINS.)"""
+    c, h, d = rng.choice([(10, 5, 2), (10, 2, 5), (10, 1, 10), (32, 4, 8), (32, 1, 32), (97, 1, 97), (33, 3, 11)])
+    lab = rng.choice([2, 3, 4, 5, 6])
+    op = rng.choice(['!', '!', '?'])
+    prog = [(1, 2, rng.choice([4, 5]), lab)] if rng.random() < 0.5 else [(0, h, d, lab), (1, 1, rng.choice([4, 5]), None)]
+    if rng.random() < 0.4:
+        prog += [(0, 1, rng.choice([c, c, 0, 66]), None), (1, 1, 0, None)] * rng.randint(1, 2)      # own values on stack 0 first
+    prog += [(5, 1, 0, None)]
+    test = rng.choice([('?', None, (op, lab, None)), ('?', None, (op, lab, None)), (op, None, (op, lab, None)), ('?', None, ('?', None, (op, lab, None)))])
+    prog.append((0, h, d, test))
+    prog += [(1, 1, rng.choice([1, 1, 2]), None)] * rng.randint(1, 4)
+    if rng.random() < 0.3:
+        prog += [(0, h, d, test)] + [(1, 1, 1, None)] * rng.randint(1, 2)
     return prog
 
 
@@ -1051,6 +1081,7 @@ INPUT_TEMPLATES = {
     'label_table': lambda rng, ai: tmpl_label_table(rng),
     'two_labels': lambda rng, ai: tmpl_two_labels(rng),
     'zoo': lambda rng, ai: tmpl_zoo(rng, ai),
+    'skip_loop': lambda rng, ai: tmpl_skip_loop(rng) if ai else tmpl_zoo(rng, ai),
     'far_stacks': lambda rng, ai: tmpl_far_stacks(rng),
     'big_fraction_output': lambda rng, ai: tmpl_big_fraction_output(rng),
     'first_command_source': lambda rng, ai: tmpl_first_command_source(rng),
